@@ -109,6 +109,45 @@ def frame_consistency(index: RepoIndex, rep, rule: str, geo: Geometry, pipe: Pip
                   f'({eh}, {ew})', f'shape {o}')
 
 
+def _pad_text(index: RepoIndex, sub: Subgrid, p: ast.AST, depth: int = 3) -> str:
+    """the padding value as the library's own callers get it: `factory()` for a parameter
+    `factory` whose default is `Hidden` denotes Hidden() provided no call site in the package
+    passes anything else (directly, or through a parameter with the same default)"""
+    if not (isinstance(p, ast.Call) and isinstance(p.func, ast.Name) and not p.args
+            and not p.keywords):
+        return src(p)
+    name = p.func.id
+
+    def default_of(fn, pname):
+        d = fn.param_defaults().get(pname)
+        return src(d) if d is not None else None
+
+    def passes_only_hidden(fn, pname, d_) -> bool:
+        if d_ < 0 or default_of(fn, pname) != 'Hidden':
+            return False
+        for g in index.all_functions():
+            for n in ast.walk(g.node):
+                if isinstance(n, ast.Call) and isinstance(n.func, ast.Attribute) and \
+                        n.func.attr == fn.name:
+                    for k in n.keywords:
+                        if k.arg != pname:
+                            continue
+                        v = src(k.value)
+                        if v == 'Hidden':
+                            continue
+                        gp = [a.arg for a in g.node.args.args + g.node.args.kwonlyargs]
+                        if isinstance(k.value, ast.Name) and v in gp and \
+                                passes_only_hidden(g, v, d_ - 1):
+                            continue
+                        return False
+        return True
+    f = sub.func
+    params = [a.arg for a in f.node.args.args + f.node.args.kwonlyargs]
+    if name in params and passes_only_hidden(f, name, depth):
+        return 'Hidden()'
+    return src(p)
+
+
 def padding(index: RepoIndex, rep, rule: str, sub: Subgrid) -> None:
     """C05.R2 / C07.R3: the in-grid test of Grid.subgrid is two-sided on both axes"""
     f = sub.func
@@ -122,7 +161,7 @@ def padding(index: RepoIndex, rep, rule: str, sub: Subgrid) -> None:
         rep.violation(rule, G, 'Grid.subgrid', fl, src(sub.inside_val),
                       'cells are read without any in-grid test: no Hidden padding')
         return
-    badpad = [src(p) for p in sub.pad_vals if src(p) != 'Hidden()']
+    badpad = [src(p) for p in sub.pad_vals if _pad_text(index, sub, p) != 'Hidden()']
     rep.check(sub.pad_val is not None and not badpad, rule, G,
               'Grid.subgrid', fl, src(sub.pad_val) if sub.pad_val is not None else '',
               f'cells outside the grid are padded with `{badpad[:1]}`, not Hidden()',
@@ -306,6 +345,14 @@ def masking(index: RepoIndex, rep, rule: str, pipe: Pipeline) -> None:
                   'store into the observation grid ' + '; '.join(reason), 'masking store')
         n_mask += 1
     if n_mask == 0:
+        elsewhere = [e for e in w.events if e.kind == 'store' and e.value is not None
+                     and 'Hidden()' in src(e.value)]
+        if elsewhere:
+            # Hidden() is stored, but not into the local observation grid the pipeline model
+            # knows (the rows are built and masked before the grid exists, ...): not a verdict
+            raise AnalysisError('from_visibility masks through '
+                                f'`{src(elsewhere[0].stmt)[:60]}`: outside the grammar of the '
+                                'masking rule')
         rep.violation(rule, OBS, 'from_visibility', fn.node.lineno, 'from_visibility',
                       'no masking store: invisible cells are not overwritten with Hidden()')
 
